@@ -61,7 +61,6 @@ impl TBS {
         input: &SigInput,
         records: impl Iterator<Item = &'a Record>,
     ) -> ProtoResult<Self> {
-        // TODO: change this to a BTreeSet so that it's preordered, no sort necessary
         let mut rrset = Vec::new();
 
         // collect only the records for this rrset
@@ -74,8 +73,25 @@ impl TBS {
             }
         }
 
-        // put records in canonical order
-        rrset.sort();
+        // Put the records in canonical order, RFC 4034 section 6.3: RRs with the same owner name,
+        // class and type are sorted by treating the RDATA portion of the *canonical form* of each
+        // RR (section 6.2: names uncompressed, lower-cased for the listed types) as a
+        // left-justified unsigned octet sequence. Neither the (received) TTL nor the original
+        // letter case of names inside the RDATA may influence the order, and all but one of any
+        // duplicate RRs must be removed.
+        let mut rdatas = Vec::with_capacity(rrset.len());
+        for record in rrset {
+            let mut rdata = Vec::new();
+            {
+                let mut rdata_encoder = BinEncoder::new(&mut rdata);
+                rdata_encoder.canonical_form = true;
+                rdata_encoder.name_encoding = NameEncoding::Uncompressed;
+                record.data.emit(&mut rdata_encoder)?;
+            }
+            rdatas.push(rdata);
+        }
+        rdatas.sort();
+        rdatas.dedup();
 
         let name = determine_name(name, input.num_labels)?;
 
@@ -99,7 +115,7 @@ impl TBS {
         input.emit(&mut encoder)?;
 
         // construct the rrset signing data
-        for record in rrset {
+        for rdata in rdatas {
             //             RR(i) = name | type | class | OrigTTL | RDATA length | RDATA
             //
             //                name is calculated according to the function in the RFC 4035
@@ -119,14 +135,12 @@ impl TBS {
             input.original_ttl.emit(&mut encoder)?;
             //
             //                RDATA length
-            let rdata_length_place = encoder.place::<u16>()?;
+            u16::try_from(rdata.len())
+                .map_err(|_| ProtoError::from("RDATA length exceeds u16::MAX"))?
+                .emit(&mut encoder)?;
             //
-            //                All names in the RDATA field are in canonical form (set above)
-            record.data.emit(&mut encoder)?;
-
-            let length = u16::try_from(encoder.len_since_place(&rdata_length_place))
-                .map_err(|_| ProtoError::from("RDATA length exceeds u16::MAX"))?;
-            rdata_length_place.replace(&mut encoder, length)?;
+            //                All names in the RDATA field are in canonical form (encoded above)
+            encoder.emit_slice(&rdata)?;
         }
 
         Ok(Self(buf))
